@@ -1,1 +1,1296 @@
-(* C01 proofs: in progress *)
+(* Proofs for Props/C01.v (preservation) and the shared invariant used by Props/C02.v (progress).
+
+   Structure
+   - Part 1: [okM P m]: the computation [m] yields a value satisfying P, a documented failure, or the fuel fault.
+   - Part 2: inversion of [has_vtype] by type constructor.
+   - Part 3: instantiated parameter types are well formed ([subst_wf_eqb]), hence equal to the argument types in
+     both directions.
+   - Part 4: every built-in / library function respects its (instantiated) signature ([sig_spec]); the rows of the
+     regenerated table are tied to the semantics through [shape_ok] (a finite check).
+   - Part 5: what the checker records in a call node ([resolve_info]).
+   - Part 6: the main induction ([eval_ok]) and the exported lemmas. *)
+From Coq Require Import List String Ascii Bool Arith NArith ZArith Lia.
+From Yae Require Import Base.Sexp Model.Ty Gen.Generated Model.Unify Model.TySpec Model.Num Model.Lexer Model.Literal Model.Cst
+  Model.Check Model.CheckSpec Model.Val Model.Render Model.ValSpec Model.Builtins Model.Eval Model.EvalSpec
+  Proofs.TyInd Proofs.ExprInd Proofs.C17Proofs Proofs.C05Proofs.
+Import ListNotations.
+Local Open Scope nat_scope.
+Local Open Scope string_scope.
+
+(* ------------------------------------------------------------------------------------------------ *)
+(* Part 1: outcomes                                                                                  *)
+(* ------------------------------------------------------------------------------------------------ *)
+
+Definition okO {X} (P : X -> Prop) (o : outcome X) : Prop :=
+  match o with OVal x => P x | OFail _ => True | OFault k => k = XFuel end.
+Definition okM {X} (P : X -> Prop) (m : M X) : Prop := okO P (snd m).
+
+Lemma okM_ret {X} (P : X -> Prop) x : P x -> okM P (ret x).
+Proof. intros H. exact H. Qed.
+
+Lemma okM_fail {X} (P : X -> Prop) k : okM P (fail k).
+Proof. exact I. Qed.
+
+Lemma okM_bind {X Y} (Q : X -> Prop) (P : Y -> Prop) (m : M X) (k : X -> M Y) :
+  okM Q m -> (forall x, Q x -> okM P (k x)) -> okM P (mbind m k).
+Proof.
+  destruct m as [t [x|fk|fk]]; unfold okM; simpl; intros H1 H2; try assumption.
+  specialize (H2 x H1). destruct (k x) as [t' o']. exact H2.
+Qed.
+
+Lemma okM_weaken {X} (P Q : X -> Prop) (m : M X) : okM P m -> (forall x, P x -> Q x) -> okM Q m.
+Proof. destruct m as [t [x|fk|fk]]; unfold okM; simpl; auto. Qed.
+
+Lemma okM_mmapM {X Y} (R : X -> Y -> Prop) (g : X -> M Y) : forall xs,
+  Forall (fun x => okM (R x) (g x)) xs -> okM (fun ys => Forall2 R xs ys) (mmapM g xs).
+Proof.
+  induction xs as [|x r IH]; intros H; simpl.
+  - apply okM_ret. constructor.
+  - inversion H as [|? ? Hx Hr]; subst.
+    eapply okM_bind; [exact Hx|]. intros y Hy.
+    eapply okM_bind; [exact (IH Hr)|]. intros ys Hys. apply okM_ret. constructor; assumption.
+Qed.
+
+Lemma okM_emit {X} (P : X -> Prop) e (k : unit -> M X) : okM P (k tt) -> okM P (mbind (emit e) k).
+Proof. intros H. unfold okM, emit. simpl. destruct (k tt) as [t o]. exact H. Qed.
+
+(* ------------------------------------------------------------------------------------------------ *)
+(* Part 2: values of a given type                                                                    *)
+(* ------------------------------------------------------------------------------------------------ *)
+
+Definition vgood (T : ty) (v : val) : Prop := has_vtype v T = true /\ fun_free v = true.
+
+Lemma vgood_eqb T T' v : ty_eqb T T' = true -> vgood T v -> vgood T' v.
+Proof.
+  intros E [H1 H2]. split; [|exact H2]. unfold has_vtype in *. apply andb_true_iff in H1. destruct H1 as [Hok Heq].
+  rewrite Hok. simpl. eapply eqb_trans; eauto.
+Qed.
+
+Lemma vgood_num b : vgood TNum (VNum b). Proof. split; reflexivity. Qed.
+Lemma vgood_bool b : vgood TBool (VBool b). Proof. split; reflexivity. Qed.
+Lemma vgood_str b : vgood TStr (VStr b). Proof. split; reflexivity. Qed.
+Lemma vgood_time a b : vgood TTime (VTime a b). Proof. split; reflexivity. Qed.
+
+Ltac vt_prim H :=
+  unfold has_vtype in H; simpl in H;
+  match type of H with
+  | context [ty_eqb ?t _] => destruct t; simpl in H; rewrite ?andb_false_r in H; try discriminate H
+  end.
+
+Lemma vt_num v : has_vtype v TNum = true -> exists b, v = VNum b.
+Proof. destruct v; intros H; try (eexists; reflexivity); try discriminate H; vt_prim H. Qed.
+Lemma vt_bool v : has_vtype v TBool = true -> exists b, v = VBool b.
+Proof. destruct v; intros H; try (eexists; reflexivity); try discriminate H; vt_prim H. Qed.
+Lemma vt_str v : has_vtype v TStr = true -> exists b, v = VStr b.
+Proof. destruct v; intros H; try (eexists; reflexivity); try discriminate H; vt_prim H. Qed.
+Lemma vt_time v : has_vtype v TTime = true -> exists a b, v = VTime a b.
+Proof. destruct v; intros H; try (do 2 eexists; reflexivity); try discriminate H; vt_prim H. Qed.
+Lemma vt_bot v : has_vtype v TBot = false.
+Proof.
+  destruct v; try reflexivity; unfold has_vtype; simpl; destruct t; simpl; rewrite ?andb_false_r; reflexivity.
+Qed.
+
+Lemma eqb_prim_eq a b : is_primitive b = true -> ty_eqb a b = true -> a = b.
+Proof. destruct a, b; simpl; intros H1 H2; try discriminate H1; try discriminate H2; reflexivity. Qed.
+Lemma eqb_bot_eq a : ty_eqb a TBot = true -> a = TBot.
+Proof. destruct a; simpl; intros H; try discriminate H; reflexivity. Qed.
+
+(* a value of primitive type is a primitive value: its key text exists *)
+Lemma vt_prim_key ops v T : is_primitive T = true -> has_vtype v T = true -> exists k, key_of ops v = ret k.
+Proof.
+  intros Hp H. destruct T; try discriminate Hp.
+  - destruct (vt_num _ H) as [b ->]. eexists; reflexivity.
+  - destruct (vt_str _ H) as [b ->]. eexists; reflexivity.
+  - destruct (vt_bool _ H) as [b ->]. eexists; reflexivity.
+  - destruct (vt_time _ H) as [a [b ->]]. eexists; reflexivity.
+Qed.
+
+Definition elems_ok (e : ty) (vs : list val) : Prop :=
+  forall x, In x vs -> val_ok x = true /\ ty_eqb (val_type x) e = true.
+
+Lemma vt_list v e : has_vtype v (TList e) = true ->
+  exists e' vs, v = VList (TList e') vs /\ ty_eqb e' e = true /\ wf_ty (TList e') = true /\ slot_free (TList e') = true /\
+                elems_ok e' vs.
+Proof.
+  unfold has_vtype. intros H. apply andb_true_iff in H. destruct H as [Hok Heq].
+  destruct v; simpl in Heq; try discriminate Heq; destruct t; simpl in Heq; try discriminate Heq; simpl in Hok;
+    rewrite ?andb_false_r in Hok; try discriminate Hok.
+  apply andb_true_iff in Hok. destruct Hok as [Hok Hok3]. apply andb_true_iff in Hok. destruct Hok as [Hok1 Hok2].
+  exists t, vs. repeat split; try assumption;
+    rewrite forallb_forall in Hok3; specialize (Hok3 _ H); apply andb_true_iff in Hok3; tauto.
+Qed.
+
+Lemma vt_map v k e : has_vtype v (TMap k e) = true ->
+  exists k' e' kvs, v = VMap (TMap k' e') kvs /\ ty_eqb k' k = true /\ ty_eqb e' e = true /\
+                    wf_ty (TMap k' e') = true /\ slot_free (TMap k' e') = true /\
+                    nodup_keys (map fst kvs) = true /\ elems_ok e' (map snd kvs).
+Proof.
+  unfold has_vtype. intros H. apply andb_true_iff in H. destruct H as [Hok Heq].
+  destruct v; simpl in Heq; try discriminate Heq; destruct t; simpl in Heq; try discriminate Heq; simpl in Hok;
+    rewrite ?andb_false_r in Hok; try discriminate Hok.
+  apply andb_true_iff in Heq. destruct Heq as [Heq1 Heq2].
+  apply andb_true_iff in Hok. destruct Hok as [Hok Hok4]. apply andb_true_iff in Hok. destruct Hok as [Hok Hok3].
+  apply andb_true_iff in Hok. destruct Hok as [Hok1 Hok2].
+  exists t1, t2, kvs. repeat split; try assumption;
+    apply in_map_iff in H; destruct H as [[kk x'] [E Hin]]; simpl in E; subst x';
+    rewrite forallb_forall in Hok4; specialize (Hok4 _ Hin); simpl in Hok4; apply andb_true_iff in Hok4; tauto.
+Qed.
+
+Lemma vt_maybe v e : has_vtype v (TMaybe e) = true ->
+  exists e' o, v = VMaybe (TMaybe e') o /\ ty_eqb e' e = true /\
+               match o with Some x => val_ok x = true /\ ty_eqb (val_type x) e' = true | None => True end.
+Proof.
+  unfold has_vtype. intros H. apply andb_true_iff in H. destruct H as [Hok Heq].
+  destruct v; simpl in Heq; try discriminate Heq; destruct t; simpl in Heq; try discriminate Heq; simpl in Hok;
+    rewrite ?andb_false_r in Hok; try discriminate Hok.
+  apply andb_true_iff in Hok. destruct Hok as [Hok Hok3].
+  exists t, v. repeat split; try assumption. destruct v as [x|]; [|exact I]. apply andb_true_iff in Hok3. exact Hok3.
+Qed.
+
+(* positional typing of object values *)
+Fixpoint fields_ok (fs : list (string * ty)) (vs : list val) {struct vs} : bool :=
+  match fs, vs with
+  | (_, ft) :: fr, x :: r => val_ok x && ty_eqb (val_type x) ft && fields_ok fr r
+  | _, [] => true
+  | [], _ :: _ => false
+  end.
+
+Lemma val_ok_obj fs vs :
+  val_ok (VObj (TObj fs) vs) =
+  wf_ty (TObj fs) && slot_free (TObj fs) && (Nat.eqb (len fs) (len vs) && fields_ok fs vs).
+Proof. reflexivity. Qed.
+
+Lemma vt_obj v fs : has_vtype v (TObj fs) = true ->
+  exists fs' vs, v = VObj (TObj fs') vs /\ ty_eqb (TObj fs') (TObj fs) = true /\ wf_ty (TObj fs') = true /\
+                 slot_free (TObj fs') = true /\ len fs' = len vs /\ fields_ok fs' vs = true.
+Proof.
+  unfold has_vtype. intros H. apply andb_true_iff in H. destruct H as [Hok Heq].
+  destruct v; try (simpl in Heq; discriminate Heq); destruct t; try (simpl in Heq; discriminate Heq);
+    try (simpl in Hok; rewrite ?andb_false_r in Hok; discriminate Hok).
+  simpl val_type in Heq. rewrite val_ok_obj in Hok.
+  apply andb_true_iff in Hok. destruct Hok as [Hok Hok3]. apply andb_true_iff in Hok. destruct Hok as [Hok1 Hok2].
+  apply andb_true_iff in Hok3. destruct Hok3 as [Hok3 Hok4]. apply Nat.eqb_eq in Hok3.
+  exists fs0, vs. repeat split; assumption.
+Qed.
+
+Lemma fields_ok_nth : forall fs vs i n t, fields_ok fs vs = true -> nth_error fs i = Some (n, t) ->
+  forall x, nth_error vs i = Some x -> val_ok x = true /\ ty_eqb (val_type x) t = true.
+Proof.
+  induction fs as [|[n0 t0] fr IH]; intros vs i n t H Hn x Hx.
+  - destruct i; discriminate Hn.
+  - destruct vs as [|y r]; [destruct i; discriminate Hx|]. simpl in H.
+    apply andb_true_iff in H. destruct H as [H H3]. apply andb_true_iff in H. destruct H as [H1 H2].
+    destruct i as [|i]; simpl in Hn, Hx.
+    + inversion Hn; subst. inversion Hx; subst. auto.
+    + eapply IH; eauto.
+Qed.
+
+Lemma fun_free_In vs x : forallb fun_free vs = true -> In x vs -> fun_free x = true.
+Proof. intros H Hin. rewrite forallb_forall in H. auto. Qed.
+
+(* ------------------------------------------------------------------------------------------------ *)
+(* Part 3: instantiated parameter types                                                              *)
+(* ------------------------------------------------------------------------------------------------ *)
+
+Lemma eqb_keyable a b : ty_eqb a b = true -> keyable b = true -> keyable a = true.
+Proof. destruct a, b; simpl; intros H1 H2; try discriminate H1; try discriminate H2; reflexivity. Qed.
+
+(* an instantiated pattern that equals a well-formed type is well formed *)
+Lemma subst_wf_eqb : forall p s b, wf_ty p = true ->
+  (forall n u, assoc n s = Some u -> wf_ty u = true) ->
+  simple p = true -> ty_eqb (subst_ty s p) b = true -> wf_ty b = true -> wf_ty (subst_ty s p) = true.
+Proof.
+  induction p using ty_ind'; intros s b Hw Hs Hsi He Hb; try reflexivity; try discriminate Hsi.
+  - simpl. destruct (assoc n s) as [u|] eqn:E; [eauto|reflexivity].
+  - simpl in *. destruct b; try discriminate He. simpl in He, Hb. eauto.
+  - apply wf_map in Hw. destruct Hw as [K [W1 W2]]. simpl in Hsi. apply andb_true_iff in Hsi. destruct Hsi as [S1 S2].
+    simpl in He. destruct b; try discriminate He. apply andb_true_iff in He. destruct He as [E1 E2].
+    apply wf_map in Hb. destruct Hb as [K' [W1' W2']]. simpl.
+    rewrite (eqb_keyable _ _ E1 K'), (IHp1 s b1), (IHp2 s b2); auto.
+  - pose proof Hw as Hw'. apply wf_obj in Hw'. destruct Hw' as [_ Hwf].
+    simpl in Hw. apply andb_true_iff in Hw. destruct Hw as [Hnd _].
+    simpl in He. destruct b; try discriminate He. fold (subst_ty s (TObj fs)) in He. simpl subst_ty in He.
+    apply ty_eqb_obj_spec in He. destruct He as [_ Hrel].
+    apply wf_obj in Hb. destruct Hb as [_ Hwb].
+    simpl. rewrite map_fst_subst, Hnd. simpl.
+    apply forallb_forall. intros [n t'] Hin. pose proof Hin as Hin'.
+    apply in_map_iff in Hin. destruct Hin as [[n0 t] [E Hin]].
+    simpl in E. inversion E; subst. simpl. destruct (Hrel _ _ Hin') as [t2 [Ha Ht2]].
+    rewrite Forall_forall in H. apply (H (n, t) Hin s t2); try assumption.
+    + eauto.
+    + eapply simple_obj_in; eauto.
+    + apply assoc_In in Ha. eauto.
+  - simpl in *. destruct b; try discriminate He. simpl in He, Hb. eauto.
+Qed.
+
+Lemma subst_nil : forall t, subst_ty [] t = t.
+Proof.
+  induction t using ty_ind'; try reflexivity; simpl.
+  - f_equal. induction H as [|x r Hx Hr IH]; simpl; [reflexivity|]. rewrite Hx, IH. reflexivity.
+  - rewrite IHt. reflexivity.
+  - rewrite IHt1, IHt2. reflexivity.
+  - f_equal. induction H as [|[n x] r Hx Hr IH]; simpl; [reflexivity|]. simpl in Hx. rewrite Hx, IH. reflexivity.
+  - rewrite IHt. f_equal. induction H as [|x r Hx Hr IH]; simpl; [reflexivity|]. rewrite Hx, IH. reflexivity.
+  - rewrite IHt. reflexivity.
+Qed.
+
+(* what the main induction needs from [instantiates]: argument types equal the instantiated parameters, which are
+   well formed *)
+Definition args_inst (s : subst) (params args : list ty) : Prop :=
+  Forall2 (fun A p => ty_eqb A (subst_ty s p) = true /\ wf_ty (subst_ty s p) = true) args params.
+
+Lemma instantiates_args s params ret args rt :
+  (forall p, In p params -> simple p = true /\ wf_ty p = true) -> forallb ty_ok args = true ->
+  instantiates s params ret args rt -> args_inst s params args /\ rt = subst_ty s ret.
+Proof.
+  intros Hp Ha [_ [_ [Hw [HT [Hrt _]]]]]. split; [|exact Hrt].
+  rewrite tys_eqb_eq in HT. unfold args_inst. clear Hrt.
+  revert args Ha HT. induction params as [|p r IH]; intros [|A args] Ha HT; simpl in HT; try discriminate HT;
+    constructor.
+  - apply andb_true_iff in HT. destruct HT as [H1 H2]. simpl in Ha. apply andb_true_iff in Ha. destruct Ha as [Ha1 Ha2].
+    destruct (ty_ok_parts _ Ha1) as [_ [WA _]]. destruct (Hp p (or_introl Logic.eq_refl)) as [Sp Wp].
+    assert (wf_ty (subst_ty s p) = true) as W.
+    { eapply subst_wf_eqb; eauto. intros n u Hu. eapply wf_assoc; eauto. }
+    split; [|exact W]. apply eqb_sym_imp; assumption.
+  - apply andb_true_iff in HT. destruct HT as [H1 H2]. simpl in Ha. apply andb_true_iff in Ha. destruct Ha as [Ha1 Ha2].
+    apply IH; auto. intros q Hq. apply Hp. right; exact Hq.
+Qed.
+
+(* ------------------------------------------------------------------------------------------------ *)
+(* Part 4: the library respects its signatures                                                       *)
+(* ------------------------------------------------------------------------------------------------ *)
+
+(* 4a: the shape of each built-in's signature, up to the names of its (at most two) variables *)
+Definition tmpl (b : bfun) (x y : string) : list ty * ty :=
+  let X := TVar x in let Y := TVar y in
+  match b with
+  | BAbs | BAddNum1 | BCeil | BFloor | BRound | BSubNum1 => ([TNum], TNum)
+  | BAddNum | BSubNum | BMul | BDiv | BExp | BMaxNum | BMinNum | BMod => ([TNum; TNum], TNum)
+  | BAddStr => ([TStr; TStr], TStr)
+  | BDiff | BIntersect | BUnion => ([TList X; TList X], TList X)
+  | BEqBool | BNeBool | BAnd | BOr => ([TBool; TBool], TBool)
+  | BEqList | BNeList => ([TList X; TList X], TBool)
+  | BEqMap | BNeMap => ([TMap X Y; TMap X Y], TBool)
+  | BEqNum | BNeNum | BGeNum | BGtNum | BLeNum | BLtNum => ([TNum; TNum], TBool)
+  | BEqStr | BNeStr | BMatch => ([TStr; TStr], TBool)
+  | BEqTime | BNeTime | BGeTime | BGtTime | BLeTime | BLtTime => ([TTime; TTime], TBool)
+  | BGetList => ([TList X; TNum; X], X)
+  | BGetMap => ([TMap X Y; X; Y], Y)
+  | BGetMaybe => ([TMaybe X; X], X)
+  | BIf => ([TBool; X; X], X)
+  | BIsset => ([TMap X Y; X], TBool)
+  | BLenList => ([TList X], TNum)
+  | BLenMap => ([TMap X Y], TNum)
+  | BLenStr => ([TStr], TNum)
+  | BNot => ([TBool], TBool)
+  | BMaxList | BMinList => ([TList TNum], TNum)
+  | BPrint => ([X], X)
+  | BString => ([X], TStr)
+  | BStrtotime => ([TStr], TTime)
+  | BSubTime => ([TTime; TTime], TNum)
+  end.
+
+(* no tuple, object or function type inside: [ty_eqb] is syntactic equality there *)
+Fixpoint flat (t : ty) : bool :=
+  match t with
+  | TTuple _ | TObj _ | TFun _ _ _ => false
+  | TList e | TMaybe e => flat e
+  | TMap k v => flat k && flat v
+  | _ => true
+  end.
+
+Lemma ty_eqb_flat : forall b a, flat b = true -> ty_eqb a b = true -> a = b.
+Proof.
+  induction b; intros a Hf He; try discriminate Hf; destruct a; try (simpl in He; discriminate He); try reflexivity.
+  - simpl in He. apply String.eqb_eq in He. subst. reflexivity.
+  - simpl in *. f_equal. auto.
+  - simpl in *. apply andb_true_iff in Hf. apply andb_true_iff in He. destruct Hf, He. f_equal; auto.
+  - simpl in *. f_equal. auto.
+Qed.
+
+Lemma eqb_list_flat : forall l2 l1, forallb flat l2 = true -> eqb_list l1 l2 = true -> l1 = l2.
+Proof.
+  induction l2 as [|b r IH]; intros [|a l1] Hf He; simpl in *; try discriminate He; [reflexivity|].
+  apply andb_true_iff in Hf. apply andb_true_iff in He. destruct Hf, He. f_equal; [apply ty_eqb_flat|apply IH]; auto.
+Qed.
+
+Lemma tmpl_flat b x y : forallb flat (fst (tmpl b x y)) = true /\ flat (snd (tmpl b x y)) = true.
+Proof. destruct b; split; reflexivity. Qed.
+
+Definition shape_ok (b : bfun) (ps : list ty) (r : ty) : bool :=
+  let vs := flat_map vars_of ps in
+  let tm := tmpl b (nth 0 vs "") (nth 1 vs "") in
+  eqb_list ps (fst tm) && ty_eqb r (snd tm).
+
+Lemma shape_ok_tmpl b ps r : shape_ok b ps r = true -> exists x y, (ps, r) = tmpl b x y.
+Proof.
+  unfold shape_ok. intros H. apply andb_true_iff in H. destruct H as [H1 H2].
+  set (x := nth 0 (flat_map vars_of ps) "") in *. set (y := nth 1 (flat_map vars_of ps) "") in *.
+  exists x, y. destruct (tmpl_flat b x y) as [F1 F2].
+  apply eqb_list_flat in H1; [|exact F1]. apply ty_eqb_flat in H2; [|exact F2].
+  rewrite H1, H2. destruct (tmpl b x y); reflexivity.
+Qed.
+
+(* the finite check on the regenerated table: every row is classified, has its built-in's shape and laziness, and is
+   recognised by [sig_is_builtin] *)
+Definition row_ok (sg : fsig) : bool :=
+  sig_is_builtin sg &&
+  match classify (s_name sg) (s_params sg) with
+  | Some b => shape_ok b (s_params sg) (s_ret sg) && Bool.eqb (s_lazy sg) (is_lazy_builtin b)
+  | None => false
+  end.
+
+Lemma builtin_rows_ok : forallb row_ok (map sig_of_tuple builtin_sigs) = true.
+Proof. vm_compute. reflexivity. Qed.
+
+Lemma user_rows_not_builtin : forallb (fun sg => negb (sig_is_builtin sg)) user_sigs = true.
+Proof. vm_compute. reflexivity. Qed.
+
+Lemma tables_ok : fenv_ok builtin_fenv = true /\ fenv_ok fenv_std = true.
+Proof. split; vm_compute; reflexivity. Qed.
+
+(* 4b: which signatures a table contains *)
+Definition sig_in (fe : fenv) (sg : fsig) : Prop :=
+  (exists k, In (k, sg) (f_mono fe)) \/ (exists k sigs, In (k, sigs) (f_poly fe) /\ In sg sigs).
+
+Lemma sput_In {X} k (x : X) l k' x' : In (k', x') (sput k x l) -> (k' = k /\ x' = x) \/ In (k', x') l.
+Proof.
+  induction l as [|[k0 x0] r IH]; simpl; intros H.
+  - destruct H as [E|[]]. inversion E; auto.
+  - destruct (String.eqb k k0).
+    + destruct H as [E|H]; [inversion E; auto|auto].
+    + destruct H as [E|H]; [auto|]. destruct (IH H); auto.
+Qed.
+
+Lemma register_in fe s sg : sig_in (register fe s) sg -> sig_in fe sg \/ sg = s.
+Proof.
+  unfold register. destruct (slot_free (sig_ty s)); simpl; intros [[k H]|[k [sigs [H1 H2]]]].
+  - apply sput_In in H. destruct H as [[_ E]|H]; [right; exact E|left; left; eauto].
+  - left; right; eauto.
+  - left; left; eauto.
+  - apply sput_In in H1. destruct H1 as [[_ E]|H1]; [|left; right; eauto].
+    subst sigs. apply in_app_or in H2. destruct H2 as [H2|[E|[]]]; [|right; auto].
+    destruct (assoc (poly_key (s_name s) (Datatypes.length (s_params s))) (f_poly fe)) as [old|] eqn:Eo; [|destruct H2].
+    left; right. apply assoc_In in Eo. eauto.
+Qed.
+
+Lemma fold_register_in : forall l fe sg, sig_in (fold_left register l fe) sg -> sig_in fe sg \/ In sg l.
+Proof.
+  induction l as [|s r IH]; simpl; intros fe sg H; [auto|].
+  destruct (IH _ _ H) as [H1|H1]; [|auto]. destruct (register_in _ _ _ H1); auto.
+Qed.
+
+Lemma sig_in_empty sg : ~ sig_in fenv_empty sg.
+Proof. intros [[k []]|[k [sigs [[] _]]]]. Qed.
+
+Definition lib_sigs : list fsig := user_sigs ++ map sig_of_tuple builtin_sigs.
+
+Lemma table_sigs fe sg : fe = builtin_fenv \/ fe = fenv_std -> sig_in fe sg -> In sg lib_sigs.
+Proof.
+  unfold lib_sigs. intros [E|E] H; subst fe; apply fold_register_in in H; destruct H as [H|H];
+    try (exfalso; exact (sig_in_empty _ H)).
+  - apply in_or_app. right. exact H.
+  - exact H.
+Qed.
+
+Lemma lookup_in fe key idx sg : lookup_fn fe key idx = Some sg -> sig_in fe sg.
+Proof.
+  unfold lookup_fn. destruct (Z.ltb idx 0).
+  - intros H. left. exists key. apply assoc_In. exact H.
+  - destruct (assoc key (f_poly fe)) as [l|] eqn:E; [|discriminate]. intros H. right. exists key, l.
+    split; [apply assoc_In; exact E|eapply nth_error_In; eauto].
+Qed.
+
+(* 4c: sets *)
+Section SemFacts.
+  Variable ops : numops.
+  Variable orc : oracles.
+
+  Lemma valset_In : forall vs seen kv, In kv (valset ops vs seen) -> In (snd kv) vs.
+  Proof.
+    induction vs as [|v r IH]; simpl; intros seen kv H; [contradiction|].
+    destruct (existsb (list_eqb (render ops v)) seen).
+    - right. eapply IH; eauto.
+    - destruct H as [E|H]; [subst kv; left; reflexivity|right; eapply IH; eauto].
+  Qed.
+
+  Lemma kget_In {X} k (l : list (list N * X)) v : kget k l = Some v -> In v (map snd l).
+  Proof.
+    induction l as [|[k' x] r IH]; simpl; intros H; [discriminate H|].
+    destruct (list_eqb k k'); [inversion H; auto|auto].
+  Qed.
+
+  Lemma set_union_In x y v : In v (set_union ops x y) -> In v x \/ In v y.
+  Proof.
+    unfold set_union. intros H. apply in_app_or in H. destruct H as [H|H]; apply in_map_iff in H;
+      destruct H as [kv [E H]]; subst v.
+    - left. eapply valset_In; eauto.
+    - right. apply filter_In in H. destruct H as [H _]. eapply valset_In; eauto.
+  Qed.
+
+  Lemma set_intersect_In x y v : In v (set_intersect ops x y) -> In v y.
+  Proof.
+    unfold set_intersect. intros H. apply in_flat_map in H. destruct H as [kx [_ H]].
+    destruct (kget (fst kx) (valset ops y [])) as [w|] eqn:E; [|destruct H]. destruct H as [E'|[]]. subst w.
+    apply kget_In in E. apply in_map_iff in E. destruct E as [kv [E H]]. subst v. eapply valset_In; eauto.
+  Qed.
+
+  Lemma set_diff_In x y v : In v (set_diff ops x y) -> In v x.
+  Proof.
+    unfold set_diff. intros H. apply in_map_iff in H. destruct H as [kv [E H]]. subst v.
+    apply filter_In in H. destruct H as [H _]. eapply valset_In; eauto.
+  Qed.
+
+  Lemma mk_list_good e1 e res : wf_ty (TList e1) = true -> slot_free (TList e1) = true -> ty_eqb e1 e = true ->
+    (forall x, In x res -> val_ok x = true /\ ty_eqb (val_type x) e1 = true /\ fun_free x = true) ->
+    vgood (TList e) (VList (TList e1) res).
+  Proof.
+    intros W S E H. split.
+    - unfold has_vtype. simpl val_type. simpl ty_eqb. rewrite E, andb_true_r. simpl. simpl in W, S. rewrite W, S. simpl.
+      apply forallb_forall. intros x Hx. destruct (H x Hx) as [H1 [H2 _]]. rewrite H1, H2. reflexivity.
+    - simpl. apply forallb_forall. intros x Hx. apply (H x Hx).
+  Qed.
+
+  (* an element of a well-typed list *)
+  Lemma list_elem_good e e' vs x : elems_ok e' vs -> ty_eqb e' e = true -> forallb fun_free vs = true -> In x vs ->
+    vgood e x.
+  Proof.
+    intros He E Hf Hin. destruct (He x Hin) as [H1 H2]. split.
+    - unfold has_vtype. rewrite H1. simpl. eapply eqb_trans; eauto.
+    - eapply fun_free_In; eauto.
+  Qed.
+End SemFacts.
+
+Ltac inv_F2 :=
+  repeat match goal with
+         | H : Forall2 _ _ (_ :: _) |- _ => inversion H; subst; clear H
+         | H : Forall2 _ _ [] |- _ => inversion H; subst; clear H
+         | H : Forall _ (_ :: _) |- _ => inversion H; subst; clear H
+         | H : Forall _ [] |- _ => clear H
+         end.
+
+Ltac prim_vals :=
+  repeat match goal with
+         | H : vgood TNum ?v |- _ => let b := fresh "b" in destruct (vt_num v (proj1 H)) as [b ->]; clear H
+         | H : vgood TBool ?v |- _ => let b := fresh "b" in destruct (vt_bool v (proj1 H)) as [b ->]; clear H
+         | H : vgood TStr ?v |- _ => let b := fresh "b" in destruct (vt_str v (proj1 H)) as [b ->]; clear H
+         | H : vgood TTime ?v |- _ =>
+             let a := fresh "sec" in let b := fresh "nsec" in destruct (vt_time v (proj1 H)) as [a [b ->]]; clear H
+         end.
+
+Section BsemGood.
+  Variable ops : numops.
+  Variable orc : oracles.
+
+  Lemma map_key_ok k' e' K v : wf_ty (TMap k' e') = true -> slot_free (TMap k' e') = true -> ty_eqb k' K = true ->
+    has_vtype v K = true -> exists kk, key_of ops v = ret kk.
+  Proof.
+    intros W S E H. apply wf_map in W. destruct W as [Kk _]. simpl in S. apply andb_true_iff in S. destruct S as [S _].
+    destruct k'; try discriminate Kk; try discriminate S; destruct K; try discriminate E;
+      try (eapply vt_prim_key; [|exact H]; reflexivity).
+    rewrite vt_bot in H. discriminate H.
+  Qed.
+
+  Lemma map_elem_good e e' (kvs : list (list N * val)) k x :
+    elems_ok e' (map snd kvs) -> ty_eqb e' e = true -> forallb (fun kv => fun_free (snd kv)) kvs = true ->
+    kget k kvs = Some x -> vgood e x.
+  Proof.
+    intros He E Hf Hk. apply kget_In in Hk. destruct (He x Hk) as [H1 H2]. split.
+    - unfold has_vtype. rewrite H1. simpl. eapply eqb_trans; eauto.
+    - apply in_map_iff in Hk. destruct Hk as [kv [E' Hin]]. subst x. rewrite forallb_forall in Hf. auto.
+  Qed.
+
+  Lemma setop_good E a b res xs ys :
+    vgood (TList E) a -> vgood (TList E) b -> wf_ty (TList E) = true ->
+    as_list a = ret xs -> as_list b = ret ys -> (forall v, In v res -> In v xs \/ In v ys) ->
+    vgood (TList E) (VList (val_type a) res).
+  Proof.
+    intros [Ha Fa] [Hb Fb] W Ea Eb Hres.
+    destruct (vt_list _ _ Ha) as [e1 [vs1 [-> [E1 [W1 [S1 O1]]]]]].
+    destruct (vt_list _ _ Hb) as [e2 [vs2 [-> [E2 [W2 [S2 O2]]]]]].
+    simpl in Ea, Eb. inversion Ea; subst vs1. inversion Eb; subst vs2. simpl val_type.
+    apply mk_list_good; try assumption. simpl in Fa, Fb.
+    intros v Hv. destruct (Hres v Hv) as [Hin|Hin].
+    - destruct (O1 v Hin) as [P1 P2]. repeat split; try assumption. apply (fun_free_In xs); assumption.
+    - destruct (O2 v Hin) as [P1 P2]. repeat split; try assumption; [|apply (fun_free_In ys); assumption].
+      eapply eqb_trans; [exact P2|]. eapply eqb_trans; [exact E2|].
+      apply eqb_sym_imp; [exact W1|exact W|exact E1].
+  Qed.
+
+  Lemma fold_num_good f vs : (forall x, In x vs -> exists b, x = VNum b) -> okM (vgood TNum) (fold_num ops f vs).
+  Proof.
+    intros H. unfold fold_num. destruct vs as [|v0 r]; [apply okM_ret; apply vgood_num|].
+    destruct (H v0 (or_introl Logic.eq_refl)) as [b0 ->]. simpl as_num.
+    eapply okM_bind; [apply okM_ret; exact I|]. intros x0 _.
+    eapply okM_bind with (Q := fun _ => True); [|intros; apply okM_ret; apply vgood_num].
+    assert (forall x, In x r -> exists b, x = VNum b) as Hr by (intros z Hz; apply H; right; exact Hz).
+    clear H. revert x0. induction r as [|v r IH]; intros acc; [apply okM_ret; exact I|].
+    destruct (Hr v (or_introl Logic.eq_refl)) as [bv ->]. simpl as_num.
+    eapply okM_bind; [apply okM_ret; exact I|]. intros z _. apply IH. intros w Hw. apply Hr. right; exact Hw.
+  Qed.
+
+  Lemma numlist_elems v : has_vtype v (TList TNum) = true ->
+    exists t vs, v = VList t vs /\ forall x, In x vs -> exists b, x = VNum b.
+  Proof.
+    intros H. destruct (vt_list _ _ H) as [e1 [vs1 [-> [E1 [W1 [S1 O1]]]]]]. exists (TList e1), vs1. split; [reflexivity|].
+    intros x Hx. destruct (O1 x Hx) as [P1 P2]. apply vt_num. unfold has_vtype. rewrite P1. simpl.
+    eapply eqb_trans; eauto.
+  Qed.
+
+  Ltac setop_tac SX :=
+    match goal with H1 : vgood _ ?a, H2 : vgood _ ?b |- okM _ (bsem _ _ _ [?a; ?b]) =>
+      let e1 := fresh "e1" in let e2 := fresh "e2" in let vs1 := fresh "vs1" in let vs2 := fresh "vs2" in
+      let Ea := fresh "Ea" in let Eb := fresh "Eb" in
+      destruct (vt_list _ _ (proj1 H1)) as [e1 [vs1 [Ea _]]]; destruct (vt_list _ _ (proj1 H2)) as [e2 [vs2 [Eb _]]];
+      assert (as_list a = ret vs1) as Ea' by (rewrite Ea; reflexivity);
+      assert (as_list b = ret vs2) as Eb' by (rewrite Eb; reflexivity);
+      unfold bsem; rewrite Ea', Eb'; unfold okM; simpl;
+      eapply (setop_good SX a b _ vs1 vs2); try eassumption
+    end.
+
+  Lemma bsem_good b x y s vs :
+    is_lazy_builtin b = false ->
+    Forall2 (fun v p => vgood (subst_ty s p) v) vs (fst (tmpl b x y)) ->
+    Forall (fun p => wf_ty (subst_ty s p) = true) (fst (tmpl b x y)) ->
+    okM (vgood (subst_ty s (snd (tmpl b x y)))) (bsem ops orc b vs).
+  Proof.
+    intros Hl HF HW.
+    destruct b; try discriminate Hl; simpl in HF, HW; inv_F2; simpl subst_ty in *;
+      try set (SX := match assoc x s with Some u => u | None => TVar x end) in *;
+      try set (SY := match assoc y s with Some u => u | None => TVar y end) in *; prim_vals;
+      try (unfold okM; simpl; auto using vgood_num, vgood_bool, vgood_str, vgood_time; fail).
+    - (* diff *)
+      setop_tac SX.
+      intros v Hv. left. eapply set_diff_In; eauto.
+    - (* get list *)
+      match goal with H1 : vgood (TList _) ?a |- _ =>
+        destruct (vt_list _ _ (proj1 H1)) as [e1 [vs1 [-> [E1 [W1 [S1 O1]]]]]]; destruct H1 as [_ F1]; simpl in F1 end.
+      unfold okM; simpl.
+      destruct (Z.ltb (to_i64 ops b) 0 || Z.leb (Z.of_nat (len vs1)) (to_i64 ops b)); simpl; [assumption|].
+      destruct (nth_error vs1 (Z.to_nat (to_i64 ops b))) as [v|] eqn:En; simpl; [|assumption].
+      eapply list_elem_good; eauto. eapply nth_error_In; eauto.
+    - (* get map *)
+      match goal with H1 : vgood (TMap _ _) ?a, H2 : vgood SX ?k |- _ =>
+        destruct (vt_map _ _ _ (proj1 H1)) as [k1 [e1 [kvs [-> [K1 [E1 [W1 [S1 [N1 O1]]]]]]]]]; destruct H1 as [_ F1];
+        simpl in F1; destruct (map_key_ok k1 e1 SX k W1 S1 K1 (proj1 H2)) as [kk Ek] end.
+      unfold okM; simpl. rewrite Ek. simpl.
+      destruct (kget kk kvs) as [v|] eqn:Eg; simpl; [|assumption]. eapply map_elem_good; eauto.
+    - (* get maybe *)
+      match goal with H1 : vgood (TMaybe _) ?a |- _ =>
+        destruct (vt_maybe _ _ (proj1 H1)) as [e1 [o [-> [E1 O1]]]]; destruct H1 as [_ F1]; simpl in F1 end.
+      unfold okM; simpl. destruct o as [v|]; simpl; [|assumption]. destruct O1 as [P1 P2]. split; [|exact F1].
+      unfold has_vtype. rewrite P1. simpl. eapply eqb_trans; eauto.
+    - (* intersect *)
+      setop_tac SX.
+      intros v Hv. right. eapply set_intersect_In; eauto.
+    - (* isset *)
+      match goal with H1 : vgood (TMap _ _) ?a, H2 : vgood SX ?k |- _ =>
+        destruct (vt_map _ _ _ (proj1 H1)) as [k1 [e1 [kvs [-> [K1 [E1 [W1 [S1 [N1 O1]]]]]]]]]; destruct H1 as [_ F1];
+        simpl in F1; destruct (map_key_ok k1 e1 SX k W1 S1 K1 (proj1 H2)) as [kk Ek] end.
+      unfold okM; simpl. rewrite Ek. simpl. apply vgood_bool.
+    - (* len list *)
+      match goal with H1 : vgood (TList _) ?a |- _ =>
+        destruct (vt_list _ _ (proj1 H1)) as [e1 [vs1 [-> _]]] end. unfold okM; simpl. apply vgood_num.
+    - (* len map *)
+      match goal with H1 : vgood (TMap _ _) ?a |- _ =>
+        destruct (vt_map _ _ _ (proj1 H1)) as [k1 [e1 [kvs [-> _]]]] end. unfold okM; simpl. apply vgood_num.
+    - (* match *)
+      unfold okM; simpl. destruct (o_regex orc b0 b); simpl; [apply vgood_bool|exact I].
+    - (* max *)
+      match goal with H1 : vgood (TList TNum) ?a |- _ => destruct (numlist_elems _ (proj1 H1)) as [t [vs1 [-> Hn]]] end.
+      unfold bsem, as_list. eapply okM_bind with (Q := fun l => l = vs1); [apply okM_ret; reflexivity|].
+      intros ? ->. apply fold_num_good. exact Hn.
+    - (* min *)
+      match goal with H1 : vgood (TList TNum) ?a |- _ => destruct (numlist_elems _ (proj1 H1)) as [t [vs1 [-> Hn]]] end.
+      unfold bsem, as_list. eapply okM_bind with (Q := fun l => l = vs1); [apply okM_ret; reflexivity|].
+      intros ? ->. apply fold_num_good. exact Hn.
+    - (* mod *)
+      unfold okM; simpl. destruct (Z.eqb (to_i64 ops b) 0); simpl; [exact I|apply vgood_num].
+    - (* union *)
+      setop_tac SX.
+      intros v Hv. eapply set_union_In; eauto.
+  Qed.
+End BsemGood.
+
+(* 4d: object fields *)
+Lemma index_of_nth {X} n : forall (l : list (string * X)) i, index_of n l = Some i ->
+  exists x, nth_error l i = Some (n, x) /\ assoc n l = Some x.
+Proof.
+  induction l as [|[m x] r IH]; simpl; intros i H; [discriminate H|].
+  destruct (String.eqb_spec n m) as [E|E].
+  - inversion H; subst. exists x. auto.
+  - destruct (index_of n r) as [j|]; [|discriminate H]. simpl in H. inversion H; subst.
+    destruct (IH j Logic.eq_refl) as [y [H1 H2]]. exists y. auto.
+Qed.
+
+Lemma nth_index_of {X} n : forall (l : list (string * X)) i x, NoDup (map fst l) -> nth_error l i = Some (n, x) ->
+  index_of n l = Some i.
+Proof.
+  induction l as [|[m y] r IH]; intros i x Hnd H; [destruct i; discriminate H|].
+  simpl in Hnd. inversion Hnd as [|? ? Hnotin Hnd']; subst. destruct i as [|i]; simpl in H |- *.
+  - inversion H; subst. rewrite String.eqb_refl. reflexivity.
+  - destruct (String.eqb_spec n m) as [E|E].
+    + subst m. exfalso. apply Hnotin. apply nth_error_In in H. apply (in_map fst) in H. exact H.
+    + rewrite (IH i x Hnd' H). reflexivity.
+Qed.
+
+Lemma obj_load_get fs vs idx name : NoDup (map fst fs) ->
+  obj_load (TObj fs) vs idx name = obj_get (TObj fs) vs name.
+Proof.
+  intros Hnd. unfold obj_load. destruct (nth_error fs idx) as [[n t]|] eqn:E; [|reflexivity].
+  destruct (String.eqb_spec n name) as [En|En]; [|reflexivity]. subst n.
+  unfold obj_get. rewrite (nth_index_of name fs idx t Hnd E). reflexivity.
+Qed.
+
+Lemma obj_field_good fs' vs fs name ft :
+  has_vtype (VObj (TObj fs') vs) (TObj fs) = true -> fun_free (VObj (TObj fs') vs) = true ->
+  wf_ty (TObj fs) = true -> assoc name fs = Some ft ->
+  exists x, obj_get (TObj fs') vs name = Some x /\ vgood ft x.
+Proof.
+  intros H Hf Wf Ha. destruct (vt_obj _ _ H) as [fs2 [vs2 [E [Eq [W [S [L F]]]]]]]. inversion E; subst fs2 vs2. clear E.
+  apply ty_eqb_obj_spec in Eq. destruct Eq as [Hlen Hrel].
+  apply wf_obj in W. destruct W as [Nd' _]. apply wf_obj in Wf. destruct Wf as [Nd _].
+  pose proof (fields_rel_flip _ _ _ Nd' Nd Hlen Hrel) as Hflip.
+  destruct (Hflip name ft (assoc_In _ _ _ Ha)) as [t' [Ha' Et]].
+  destruct (assoc_index_of _ _ _ Ha') as [i Hi]. destruct (index_of_nth _ _ _ Hi) as [t2 [Hn Ha2]].
+  rewrite Ha' in Ha2. inversion Ha2; subst t2.
+  assert (i < len vs) as Hlt by (rewrite <- L; apply nth_error_Some; rewrite Hn; discriminate).
+  destruct (nth_error vs i) as [x|] eqn:Ex; [|apply nth_error_None in Ex; unfold len in Hlt; lia].
+  exists x. split; [unfold obj_get; rewrite Hi; exact Ex|].
+  destruct (fields_ok_nth _ _ _ _ _ F Hn x Ex) as [P1 P2]. split.
+  - unfold has_vtype. rewrite P1. simpl. eapply eqb_trans; eauto.
+  - simpl in Hf. eapply fun_free_In; eauto. eapply nth_error_In; eauto.
+Qed.
+
+(* 4e: every library function against its signature *)
+Section SigSpec.
+  Variable ops : numops.
+  Variable orc : oracles.
+
+  Definition thunk_ok (T : ty) (th : unit -> M val) : Prop := okM (vgood T) (th tt).
+
+  Definition strict_spec (sg : fsig) : Prop :=
+    forall s vs, Forall2 (fun v p => vgood (subst_ty s p) v) vs (s_params sg) ->
+      Forall (fun p => wf_ty (subst_ty s p) = true) (s_params sg) ->
+      okM (vgood (subst_ty s (s_ret sg))) (apply_strict ops orc sg vs).
+
+  Definition lazy_call (sg : fsig) (ths : list (unit -> M val)) : M val :=
+    (if sig_is_builtin sg then apply_lazy sg else host_lazy (s_name sg)) ths.
+
+  Definition lazy_spec (sg : fsig) : Prop :=
+    forall s ths, Forall2 (fun th p => thunk_ok (subst_ty s p) th) ths (s_params sg) ->
+      okM (vgood (subst_ty s (s_ret sg))) (lazy_call sg ths).
+
+  Definition sig_spec (sg : fsig) : Prop := if s_lazy sg then lazy_spec sg else strict_spec sg.
+
+  Lemma okM_as_bool (P : bool -> Prop) v : vgood TBool v -> (forall b, v = VBool b -> P b) -> okM P (as_bool v).
+  Proof. intros H HP. destruct (vt_bool _ (proj1 H)) as [b ->]. apply okM_ret. auto. Qed.
+
+  Lemma builtin_row_spec sg : row_ok sg = true -> sig_spec sg.
+  Proof.
+    unfold row_ok. intros H. apply andb_true_iff in H. destruct H as [Hb H].
+    destruct (classify (s_name sg) (s_params sg)) as [b|] eqn:Ec; [|discriminate H].
+    apply andb_true_iff in H. destruct H as [Hs Hl]. apply Bool.eqb_prop in Hl.
+    destruct (shape_ok_tmpl _ _ _ Hs) as [x [y Et]].
+    unfold sig_spec. destruct (s_lazy sg) eqn:El.
+    - intros s ths HF. unfold lazy_call, apply_lazy. rewrite Hb, Ec.
+      destruct sg as [nm ps r lz]. simpl in *. symmetry in Hl.
+      destruct b; try discriminate Hl; simpl in Et; inversion Et; subst ps r; clear Et; inv_F2; simpl subst_ty in *;
+        unfold thunk_ok in *.
+      + (* if *)
+        eapply okM_bind; [eassumption|]. intros cv Hcv.
+        eapply okM_bind; [apply (okM_as_bool (fun _ => True)); [exact Hcv|auto]|]. intros [|] _; assumption.
+      + (* and *)
+        eapply okM_bind; [eassumption|]. intros cv Hcv.
+        eapply okM_bind; [apply (okM_as_bool (fun _ => True)); [exact Hcv|auto]|]. intros [|] _.
+        * eapply okM_bind; [eassumption|]. intros bv Hbv.
+          eapply okM_bind; [apply (okM_as_bool (fun _ => True)); [exact Hbv|auto]|]. intros ? _.
+          apply okM_ret. apply vgood_bool.
+        * apply okM_ret. apply vgood_bool.
+      + (* or *)
+        eapply okM_bind; [eassumption|]. intros cv Hcv.
+        eapply okM_bind; [apply (okM_as_bool (fun _ => True)); [exact Hcv|auto]|]. intros [|] _.
+        * apply okM_ret. apply vgood_bool.
+        * eapply okM_bind; [eassumption|]. intros bv Hbv.
+          eapply okM_bind; [apply (okM_as_bool (fun _ => True)); [exact Hbv|auto]|]. intros ? _.
+          apply okM_ret. apply vgood_bool.
+    - intros s vs HF HW. unfold apply_strict. rewrite Hb, Ec.
+      destruct sg as [nm ps r lz]. simpl in *.
+      replace ps with (fst (tmpl b x y)) in * by (rewrite <- Et; reflexivity).
+      replace r with (snd (tmpl b x y)) by (rewrite <- Et; reflexivity).
+      apply bsem_good; auto.
+  Qed.
+End SigSpec.
+
+Section UserSpec.
+  Variable ops : numops.
+  Variable orc : oracles.
+
+  Lemma user_sig_spec sg : In sg user_sigs -> sig_spec ops orc sg.
+  Proof.
+    intros Hin.
+    assert (sig_is_builtin sg = false) as Hnb.
+    { pose proof user_rows_not_builtin as H. rewrite forallb_forall in H. apply negb_true_iff. apply H. exact Hin. }
+    unfold user_sigs in Hin. simpl in Hin.
+    repeat (destruct Hin as [E|Hin]; [subst sg|]); try contradiction;
+      unfold sig_spec; simpl s_lazy; cbv iota;
+      try (intros s vs HF HW; unfold apply_strict; rewrite Hnb; clear Hnb; simpl in HF, HW; inv_F2;
+           simpl subst_ty in *; prim_vals);
+      try (intros s ths HF; unfold lazy_call; rewrite Hnb; clear Hnb; simpl in HF; inv_F2; simpl subst_ty in *;
+           unfold thunk_ok in * );
+      try (unfold okM; simpl; auto using vgood_num, vgood_bool, vgood_str; fail).
+    - (* area *)
+      match goal with H : vgood (TObj _) ?v |- _ =>
+        destruct (vt_obj _ _ (proj1 H)) as [fs' [vs' [-> _]]];
+        destruct (obj_field_good fs' vs' _ "w" TNum (proj1 H) (proj2 H) Logic.eq_refl Logic.eq_refl) as [w [Ew Gw]];
+        destruct (obj_field_good fs' vs' _ "h" TNum (proj1 H) (proj2 H) Logic.eq_refl Logic.eq_refl) as [h [Eh Gh]]
+      end.
+      prim_vals. unfold host_strict. simpl s_name. simpl (String.eqb _ _). cbv iota.
+      apply okM_emit. rewrite Ew, Eh. unfold okM; simpl. apply vgood_num.
+    - (* lazyif *)
+      unfold host_lazy. simpl s_name. simpl (String.eqb _ _). cbv iota. apply okM_emit.
+      eapply okM_bind; [eassumption|]. intros cv Hcv.
+      eapply okM_bind; [apply (okM_as_bool (fun _ => True)); [exact Hcv|auto]|]. intros [|] _; assumption.
+    - (* both *)
+      unfold host_lazy. simpl s_name. simpl (String.eqb _ _). cbv iota. apply okM_emit.
+      eapply okM_bind; [eassumption|]. intros cv Hcv.
+      eapply okM_bind; [apply (okM_as_bool (fun _ => True)); [exact Hcv|auto]|]. intros [|] _.
+      + eapply okM_bind; [eassumption|]. intros bv Hbv.
+        eapply okM_bind; [apply (okM_as_bool (fun _ => True)); [exact Hbv|auto]|]. intros ? _.
+        apply okM_ret. apply vgood_bool.
+      + apply okM_ret. apply vgood_bool.
+  Qed.
+End UserSpec.
+
+Lemma lib_sig_spec ops orc sg : In sg lib_sigs -> sig_spec ops orc sg.
+Proof.
+  unfold lib_sigs. intros H. apply in_app_or in H. destruct H as [H|H].
+  - apply user_sig_spec. exact H.
+  - apply builtin_row_spec. pose proof builtin_rows_ok as R. rewrite forallb_forall in R. apply R. exact H.
+Qed.
+
+(* ------------------------------------------------------------------------------------------------ *)
+(* Part 5: what the checker records in a call node                                                   *)
+(* ------------------------------------------------------------------------------------------------ *)
+
+Lemma mono_key_nonempty name args : String.eqb (mono_key name args) "" = false.
+Proof. reflexivity. Qed.
+Lemma poly_key_nonempty name n : String.eqb (poly_key name n) "" = false.
+Proof. reflexivity. Qed.
+
+Lemma resolve_go_idx fuel fresh pk args : forall sigs i key idx ps rt,
+  (forall sg, In sg sigs -> psig_ok fresh sg) -> forallb ty_ok args = true ->
+  resolve_go fuel fresh pk args sigs i = COk (key, idx, ps, rt) ->
+  key = pk /\ (i <= idx)%Z /\
+  exists sg s, nth_error sigs (Z.to_nat (idx - i)) = Some sg /\ instantiates s (s_params sg) (s_ret sg) args rt.
+Proof.
+  induction sigs as [|sg r IH]; intros i key idx ps rt Hs Ha H; simpl in H; [discriminate H|].
+  destruct (try_infer fuel fresh sg args) as [o| |] eqn:ET; simpl in H; try discriminate H.
+  pose proof (Hs sg (or_introl Logic.eq_refl)) as Hsg.
+  apply (try_infer_ok fuel fresh sg args o Hsg Ha) in ET. subst o.
+  assert (forall key idx ps rt, resolve_go fuel fresh pk args r (i + 1)%Z = COk (key, idx, ps, rt) ->
+            key = pk /\ (i <= idx)%Z /\
+            exists sg' s, nth_error (sg :: r) (Z.to_nat (idx - i)) = Some sg' /\
+                          instantiates s (s_params sg') (s_ret sg') args rt) as Hlater.
+  { intros key' idx' ps' rt' H'.
+    destruct (IH (i + 1)%Z key' idx' ps' rt' (fun sg' Hin => Hs sg' (or_intror Hin)) Ha H') as [K [L [sg' [s [N I]]]]].
+    split; [exact K|]. split; [lia|]. exists sg', s. split; [|exact I].
+    replace (Z.to_nat (idx' - i)) with (S (Z.to_nat (idx' - (i + 1)))) by lia. exact N. }
+  destruct (spec_opt fresh sg args) as [[ps' rt']|] eqn:ES; [|apply (Hlater _ _ _ _ H)].
+  destruct (params_match ps' args) eqn:EM; [|apply (Hlater _ _ _ _ H)].
+  inversion H; subst. destruct (spec_opt_sound fresh sg args ps rt Hsg Ha ES EM) as [[s HI] _].
+  split; [reflexivity|]. split; [lia|]. exists sg, s. rewrite Z.sub_diag. split; [reflexivity|exact HI].
+Qed.
+
+Lemma resolve_info fe fuel fresh name args key idx ps rt :
+  fenv_ok fe = true -> fresh_ok fe fresh -> forallb ty_ok args = true ->
+  resolve fe fuel fresh name args = COk (key, idx, ps, rt) -> params_match ps args = true ->
+  String.eqb key "" = false /\
+  exists sg s, lookup_fn fe key idx = Some sg /\ args_inst s (s_params sg) args /\ rt = subst_ty s (s_ret sg).
+Proof.
+  intros Hfe Hfr Ha ER EM. rewrite resolve_unfold in ER.
+  destruct (assoc (mono_key name args) (f_mono fe)) as [sg|] eqn:Emono.
+  - inversion ER; subst. split; [apply mono_key_nonempty|]. exists sg, []. split; [exact Emono|].
+    destruct (fenv_mono fe _ sg Hfe Emono) as [Hs Hsf]. destruct (sig_ok_parts _ Hs) as [Hp _].
+    rewrite <- (subst_nil (s_ret sg)) at 1.
+    apply instantiates_args with (rt := subst_ty [] (s_ret sg)); [exact Hp|exact Ha|].
+    simpl in Hsf. apply andb_true_iff in Hsf. destruct Hsf as [_ Hsf].
+    repeat split; try reflexivity.
+    + intros n [].
+    + rewrite tys_eqb_eq. rewrite <- params_match_eq.
+      replace (map (subst_ty []) (s_params sg)) with (s_params sg); [exact EM|].
+      symmetry. rewrite <- (map_id (s_params sg)) at 2. apply map_ext. apply subst_nil.
+    + rewrite subst_nil. exact Hsf.
+  - destruct (assoc (poly_key name (List.length args)) (f_poly fe)) as [sigs|] eqn:Epoly; [|discriminate ER].
+    assert (forall sg, In sg sigs -> psig_ok fresh sg) as HS by (intros sg Hin; eapply psig_ok_intro; eauto).
+    destruct (resolve_go_idx _ _ _ _ _ _ _ _ _ _ HS Ha ER) as [K [L [sg [s [N I]]]]]. subst key.
+    split; [apply poly_key_nonempty|]. exists sg, s. rewrite Z.sub_0_r in N. split.
+    + unfold lookup_fn. destruct (Z.ltb_spec idx 0) as [Hlt|_]; [lia|]. rewrite Epoly. exact N.
+    + apply nth_error_In in N. destruct (sig_ok_parts _ (proj1 (HS sg N))) as [Hp _].
+      eapply instantiates_args; eauto.
+Qed.
+
+(* ------------------------------------------------------------------------------------------------ *)
+(* Part 6: the main induction                                                                        *)
+(* ------------------------------------------------------------------------------------------------ *)
+
+Lemma okM_mmapM2 {X Y Z} (R : Z -> Y -> Prop) (g : X -> M Y) : forall xs zs,
+  Forall2 (fun x z => okM (R z) (g x)) xs zs -> okM (fun ys => Forall2 (fun y z => R z y) ys zs) (mmapM g xs).
+Proof.
+  induction 1 as [|x z xs zs Hx Hr IH]; simpl.
+  - apply okM_ret. constructor.
+  - eapply okM_bind; [exact Hx|]. intros y Hy.
+    eapply okM_bind; [exact IH|]. intros ys Hys. apply okM_ret. constructor; assumption.
+Qed.
+
+Lemma okM_mmapM_all {X Y} (P : Y -> Prop) (g : X -> M Y) : forall xs,
+  Forall (fun x => okM P (g x)) xs -> okM (Forall P) (mmapM g xs).
+Proof.
+  induction 1 as [|x xs Hx Hr IH]; simpl.
+  - apply okM_ret. constructor.
+  - eapply okM_bind; [exact Hx|]. intros y Hy.
+    eapply okM_bind; [exact IH|]. intros ys Hys. apply okM_ret. constructor; assumption.
+Qed.
+
+Lemma mmapM_map {X Y Z} (g : Y -> M Z) (h : X -> Y) : forall l, mmapM g (map h l) = mmapM (fun x => g (h x)) l.
+Proof. induction l as [|x r IH]; simpl; [reflexivity|]. rewrite IH. reflexivity. Qed.
+
+Lemma list_eqb_eq : forall a b, list_eqb a b = true -> a = b.
+Proof.
+  induction a as [|x r IH]; intros [|y s] H; simpl in H; try discriminate H; [reflexivity|].
+  apply andb_true_iff in H. destruct H as [H1 H2]. apply N.eqb_eq in H1. f_equal; auto.
+Qed.
+
+Lemma kput_In {X} k (x : X) : forall l kv, In kv (kput k x l) -> kv = (k, x) \/ In kv l.
+Proof.
+  induction l as [|[k' x'] r IH]; simpl; intros kv H.
+  - destruct H as [E|[]]; auto.
+  - destruct (list_eqb k k').
+    + destruct H as [E|H]; auto.
+    + destruct H as [E|H]; [auto|]. destruct (IH _ H); auto.
+Qed.
+
+Lemma existsb_keys_kput {X} k0 k (x : X) l :
+  existsb (list_eqb k0) (map fst (kput k x l)) = true ->
+  list_eqb k0 k = true \/ existsb (list_eqb k0) (map fst l) = true.
+Proof.
+  intros H. apply existsb_exists in H. destruct H as [k1 [Hin E]].
+  apply in_map_iff in Hin. destruct Hin as [kv [E1 Hin]]. subst k1.
+  apply kput_In in Hin. destruct Hin as [->|Hin]; [left; exact E|].
+  right. apply existsb_exists. exists (fst kv). split; [apply in_map; exact Hin|exact E].
+Qed.
+
+Lemma kput_nodup {X} k (x : X) : forall l, nodup_keys (map fst l) = true -> nodup_keys (map fst (kput k x l)) = true.
+Proof.
+  induction l as [|[k' x'] r IH]; simpl; intros H; [reflexivity|].
+  apply andb_true_iff in H. destruct H as [H1 H2]. destruct (list_eqb k k') eqn:E.
+  - apply list_eqb_eq in E. subst k'. simpl. rewrite H1, H2. reflexivity.
+  - simpl. rewrite (IH H2), andb_true_r. apply negb_true_iff. apply negb_true_iff in H1.
+    destruct (existsb (list_eqb k') (map fst (kput k x r))) eqn:Ex; [|reflexivity].
+    apply existsb_keys_kput in Ex. destruct Ex as [Ex|Ex]; [|congruence].
+    apply list_eqb_eq in Ex. subst k'. 
+    assert (list_eqb k k = true) as R by (clear; induction k as [|a k IH]; simpl; [reflexivity|]; rewrite N.eqb_refl, IH; reflexivity).
+    congruence.
+Qed.
+
+Section EvalEq.
+  Variables (ops : numops) (orc : oracles) (fe : fenv) (rho : venv).
+  Notation ev := (eval ops orc fe rho).
+
+  Definition map_go (g : aexpr -> M val) :=
+    fix go (kvs : list (aexpr * aexpr)) (acc : list (list N * val)) : M (list (list N * val)) :=
+      match kvs with
+      | [] => ret acc
+      | (k, v) :: r =>
+          let^ kv := g k in let^ kk := key_of ops kv in
+          let^ vv := g v in go r (kput kk vv acc)
+      end.
+
+  Definition do_call (f : nat) (sg : fsig) (args : list aexpr) : M val :=
+    if s_lazy sg then lazy_call sg (map (fun x (_ : unit) => ev f x) args)
+    else let^ vs := mmapM (ev f) args in apply_strict ops orc sg vs.
+
+  Lemma eval_list f t es : ev (S f) (AList t es) =
+    match es with [] => ret (VList (TList TBot) []) | _ => let^ vs := mmapM (ev f) es in ret (VList t vs) end.
+  Proof. reflexivity. Qed.
+  Lemma eval_map f t kvs : ev (S f) (AMap t kvs) =
+    match kvs with [] => ret (VMap (TMap TBot TBot) [])
+              | _ => let^ entries := map_go (ev f) kvs [] in ret (VMap t entries) end.
+  Proof. reflexivity. Qed.
+  Lemma eval_obj f t fs : ev (S f) (AObj t fs) =
+    match fs with [] => ret (VObj (TObj []) [])
+             | _ => let^ vs := mmapM (fun nf => ev f (snd nf)) fs in ret (VObj t vs) end.
+  Proof. reflexivity. Qed.
+  Lemma eval_ident f c name : ev (S f) (AIdent c name) =
+    match assoc name rho with Some v => ret v | None => fault XOther end.
+  Proof. reflexivity. Qed.
+  Lemma eval_call f c key idx ft callee args : ev (S f) (ACall c key idx ft callee args) =
+    if String.eqb key "" then
+      let^ fv := ev f callee in
+      match fv with
+      | VFun (TFun n ps r) name lz => do_call f (mkSig name ps r lz) args
+      | _ => fault XTypeConf
+      end
+    else match lookup_fn fe key idx with Some sg => do_call f sg args | None => fault XOther end.
+  Proof. reflexivity. Qed.
+  Lemma eval_sub f c vt v i : ev (S f) (ASub c vt v i) =
+    let^ x := ev f v in
+    match x with
+    | VList _ vs =>
+        let^ iv := ev f i in let^ n := as_num iv in
+        let idx := to_i64 ops n in
+        if Z.ltb idx 0 || Z.leb (Z.of_nat (len vs)) idx then fail FIndex
+        else match nth_error vs (Z.to_nat idx) with Some e => ret e | None => fail FIndex end
+    | VMap _ kvs =>
+        let^ kv := ev f i in let^ kk := key_of ops kv in
+        match kget kk kvs with Some e => ret e | None => fail FKey end
+    | _ => fault XUnreachable
+    end.
+  Proof. reflexivity. Qed.
+  Lemma eval_member f c ot idx o name : ev (S f) (AMember c ot idx o name) =
+    let^ ov := ev f o in
+    match ov with
+    | VObj t vs => match obj_load t vs idx name with Some e => ret e | None => fault XNil end
+    | _ => fault XTypeConf
+    end.
+  Proof. reflexivity. Qed.
+End EvalEq.
+
+Lemma Forall2_Forall_r {X Y} (R : X -> Y -> Prop) (P : Y -> Prop) xs ys :
+  Forall2 R xs ys -> (forall x y, In x xs -> R x y -> P y) -> Forall P ys.
+Proof.
+  induction 1 as [|x y xs ys Hxy Hr IH]; intros H; constructor.
+  - apply (H x y); [left; reflexivity|exact Hxy].
+  - apply IH. intros x' y' Hin. apply H. right; exact Hin.
+Qed.
+
+Lemma Forall2_map_left {X X' Y} (h : X -> X') (R : X' -> Y -> Prop) xs ys :
+  Forall2 (fun x y => R (h x) y) xs ys -> Forall2 R (map h xs) ys.
+Proof. induction 1; simpl; constructor; assumption. Qed.
+
+Lemma Forall2_weaken {X Y} (R R' : X -> Y -> Prop) xs ys :
+  (forall x y, R x y -> R' x y) -> Forall2 R xs ys -> Forall2 R' xs ys.
+Proof. intros H. induction 1; constructor; auto. Qed.
+
+Section Main.
+  Variables (ops : numops) (orc : oracles) (fe : fenv) (G : tenv) (rho : venv) (fuel : nat) (fresh : N).
+  Hypothesis Hfe : fenv_ok fe = true.
+  Hypothesis Hlib : forall sg, sig_in fe sg -> In sg lib_sigs.
+  Hypothesis HG : tenv_ok G = true.
+  Hypothesis Hrho : env_ok G rho.
+  Hypothesis Hfr : fresh_ok fe fresh.
+  Notation ev := (eval ops orc fe rho).
+  Notation chk := (check fe G fuel fresh).
+
+  Definition ev_ok (T : ty) (a : aexpr) : Prop := forall f, okM (vgood T) (ev f a).
+  Definition stmt (e : expr) : Prop := forall a T, chk e = COk (a, T) -> ev_ok T a.
+
+  Lemma chk_ok e a T : chk e = COk (a, T) -> ty_ok T = true.
+  Proof. intros H. exact (proj2 (check_inv fe G fuel fresh Hfe HG Hfr e a T H)). Qed.
+
+  Lemma ev_ok_eqb T T' a : ty_eqb T T' = true -> ev_ok T a -> ev_ok T' a.
+  Proof. intros E H f. eapply okM_weaken; [apply H|]. intros v. apply vgood_eqb. exact E. Qed.
+
+  Lemma ev_zero T a : okM (vgood T) (ev 0 a).
+  Proof. exact Logic.eq_refl. Qed.
+
+  (* ---- list ---- *)
+  Lemma case_list p es : Forall stmt es -> stmt (EList p es).
+  Proof.
+    intros IH a T HC. destruct es as [|e0 rest].
+    { simpl in HC. inversion HC; subst. intros [|f]; [apply ev_zero|]. rewrite eval_list. apply okM_ret.
+      split; reflexivity. }
+    inversion IH as [|? ? He0 Hrest]; subst. clear IH. simpl in HC.
+    destruct (chk e0) as [[a0 t0]| |] eqn:E0; simpl in HC; try discriminate HC.
+    match type of HC with cbind ?c _ = _ => destruct c as [ars| |] eqn:E1 end; simpl in HC; try discriminate HC.
+    inversion HC; subst. clear HC.
+    pose proof (chk_ok _ _ _ E0) as K0. destruct (ty_ok_parts _ K0) as [S0 [W0 _]].
+    assert (Forall (ev_ok t0) ars) as Hars.
+    { apply cmapM_Forall2 in E1. eapply Forall2_Forall_r; [exact E1|]. intros x y Hin Hx. simpl in Hx.
+      rewrite Forall_forall in Hrest. specialize (Hrest x Hin).
+      destruct (chk x) as [[ax tx]| |] eqn:Ex; simpl in Hx; try discriminate Hx.
+      unfold type_assert in Hx. destruct (ty_eqb t0 tx) eqn:Et; simpl in Hx; try discriminate Hx.
+      inversion Hx; subst y.
+      apply (ev_ok_eqb tx t0); [|apply Hrest; exact Ex]. apply ok_sym; [exact K0|eapply chk_ok; eauto|exact Et]. }
+    intros [|f]; [apply ev_zero|]. rewrite eval_list.
+    eapply okM_bind.
+    - apply okM_mmapM_all with (P := vgood t0). constructor; [apply (He0 _ _ E0)|].
+      eapply Forall_impl; [|exact Hars]. intros x Hx. apply Hx.
+    - intros vs Hvs. apply okM_ret. rewrite Forall_forall in Hvs. apply mk_list_good; try assumption.
+      + apply eq_refl; exact W0.
+      + intros x Hx. destruct (Hvs x Hx) as [H1 H2]. unfold has_vtype in H1. apply andb_true_iff in H1. tauto.
+  Qed.
+
+  (* ---- map ---- *)
+  Definition acc_ok (vt : ty) (acc : list (list N * val)) : Prop :=
+    nodup_keys (map fst acc) = true /\ forall kv, In kv acc -> vgood vt (snd kv).
+
+  Lemma map_go_ok kt vt g : is_primitive kt = true -> forall kvs,
+    Forall (fun kv => okM (vgood kt) (g (fst kv)) /\ okM (vgood vt) (g (snd kv))) kvs ->
+    forall acc, acc_ok vt acc -> okM (acc_ok vt) (map_go ops g kvs acc).
+  Proof.
+    intros Hp. induction 1 as [|[k v] r [Hk Hv] Hr IH]; intros acc Hacc; simpl.
+    - apply okM_ret. exact Hacc.
+    - simpl in Hk, Hv. eapply okM_bind; [exact Hk|]. intros kv Hkv.
+      destruct (vt_prim_key ops kv kt Hp (proj1 Hkv)) as [kk Ek]. rewrite Ek.
+      eapply okM_bind with (Q := fun _ => True); [apply okM_ret; exact I|]. intros kk' _.
+      eapply okM_bind; [exact Hv|]. intros vv Hvv. apply IH. destruct Hacc as [N1 N2].
+      split; [apply kput_nodup; exact N1|].
+      intros e He. apply kput_In in He. destruct He as [->|He]; [exact Hvv|auto].
+  Qed.
+
+  Lemma mk_map_good kt vt entries : ty_ok (TMap kt vt) = true -> acc_ok vt entries ->
+    vgood (TMap kt vt) (VMap (TMap kt vt) entries).
+  Proof.
+    intros K [N1 N2]. destruct (ty_ok_parts _ K) as [S [W _]]. split.
+    - unfold has_vtype. simpl val_type. rewrite (eq_refl _ W), andb_true_r.
+      simpl val_ok. simpl in W, S. rewrite W, S, N1. simpl.
+      apply forallb_forall. intros kv Hin. destruct (N2 kv Hin) as [H1 _]. exact H1.
+    - simpl. apply forallb_forall. intros kv Hin. apply (N2 kv Hin).
+  Qed.
+
+  Lemma case_map p kvs : Forall (fun kv => stmt (fst kv) /\ stmt (snd kv)) kvs -> stmt (EMap p kvs).
+  Proof.
+    intros IH a T HC. destruct kvs as [|[k0 v0] rest].
+    { simpl in HC. inversion HC; subst. intros [|f]; [apply ev_zero|]. rewrite eval_map. apply okM_ret.
+      split; reflexivity. }
+    inversion IH as [|? ? [Hk0 Hv0] Hrest]; subst. clear IH. simpl in Hk0, Hv0. simpl in HC.
+    destruct (chk k0) as [[ak0 kt]| |] eqn:Ek; simpl in HC; try discriminate HC.
+    destruct (is_primitive kt) eqn:Ep; simpl in HC; [|discriminate HC].
+    destruct (chk v0) as [[av0 vt]| |] eqn:Ev; simpl in HC; try discriminate HC.
+    match type of HC with cbind ?c _ = _ => destruct c as [ars| |] eqn:E1 end; simpl in HC; try discriminate HC.
+    inversion HC; subst. clear HC.
+    pose proof (chk_ok _ _ _ Ek) as Kk. pose proof (chk_ok _ _ _ Ev) as Kv.
+    assert (Forall (fun kv => ev_ok kt (fst kv) /\ ev_ok vt (snd kv)) ars) as Hars.
+    { apply cmapM_Forall2 in E1. eapply Forall2_Forall_r; [exact E1|]. intros x y Hin Hx. simpl in Hx.
+      rewrite Forall_forall in Hrest. destruct (Hrest x Hin) as [Hx1 Hx2].
+      destruct (chk (fst x)) as [[a1 t1]| |] eqn:Ex1; simpl in Hx; try discriminate Hx.
+      unfold type_assert in Hx. destruct (ty_eqb kt t1) eqn:Et1; simpl in Hx; try discriminate Hx.
+      destruct (chk (snd x)) as [[a2 t2]| |] eqn:Ex2; simpl in Hx; try discriminate Hx.
+      destruct (ty_eqb vt t2) eqn:Et2; simpl in Hx; try discriminate Hx. inversion Hx; subst y. simpl. split.
+      - apply (ev_ok_eqb t1 kt); [|apply Hx1; exact Ex1]. apply ok_sym; [exact Kk|eapply chk_ok; eauto|exact Et1].
+      - apply (ev_ok_eqb t2 vt); [|apply Hx2; exact Ex2]. apply ok_sym; [exact Kv|eapply chk_ok; eauto|exact Et2]. }
+    intros [|f]; [apply ev_zero|]. rewrite eval_map.
+    eapply okM_bind.
+    - apply (map_go_ok kt vt (ev f) Ep ((ak0, av0) :: ars)).
+      + constructor; [split; [apply (Hk0 _ _ Ek)|apply (Hv0 _ _ Ev)]|].
+        eapply Forall_impl; [|exact Hars]. intros x [Hx1 Hx2]. split; [apply Hx1|apply Hx2].
+      + split; [reflexivity|intros kv []].
+    - intros entries He. apply okM_ret. apply mk_map_good; [|exact He]. apply ty_ok_map; assumption.
+  Qed.
+
+  (* ---- object ---- *)
+  Lemma fields_ok_intro : forall (afs : list (string * aexpr * ty)) vs,
+    Forall2 (fun v z => vgood (snd z) v) vs afs ->
+    fields_ok (map (fun x => (fst (fst x), snd x)) afs) vs = true /\ len afs = len vs /\ forallb fun_free vs = true.
+  Proof.
+    intros afs vs H. induction H as [|v z vs afs [H1 H2] Hr [I1 [I2 I3]]]; simpl; [auto|].
+    unfold has_vtype in H1. apply andb_true_iff in H1. destruct H1 as [V1 V2].
+    rewrite V1, V2, I1, H2, I3. unfold len in *. simpl. auto.
+  Qed.
+
+  Lemma case_obj p fs : Forall (fun f => stmt (snd f)) fs -> stmt (EObj p fs).
+  Proof.
+    intros IH a T HC. simpl in HC.
+    match type of HC with cbind ?c _ = _ => destruct c as [afs| |] eqn:E1 end; simpl in HC; try discriminate HC.
+    destruct (nodupb (map (fun x => fst (fst x)) afs)) eqn:End; simpl in HC; [|discriminate HC].
+    pose proof (chk_ok (EObj p fs) a T) as KT. simpl in KT. rewrite E1 in KT. simpl in KT. rewrite End in KT. simpl in KT.
+    specialize (KT HC). inversion HC; subst. clear HC.
+    apply cmapM_Forall2 in E1.
+    assert (Forall (fun z => ev_ok (snd z) (snd (fst z))) afs) as Hafs.
+    { eapply Forall2_Forall_r; [exact E1|]. intros x y Hin Hx. simpl in Hx.
+      rewrite Forall_forall in IH. specialize (IH x Hin).
+      destruct (chk (snd x)) as [[ax tx]| |] eqn:Ex; simpl in Hx; try discriminate Hx.
+      inversion Hx; subst y. simpl. apply IH. exact Ex. }
+    intros [|f]; [apply ev_zero|]. rewrite eval_obj.
+    destruct afs as [|z0 afs'].
+    { apply okM_ret. split; reflexivity. }
+    remember (z0 :: afs') as afs eqn:Eafs.
+    assert (match map (fun x : string * aexpr * ty => (fst (fst x), snd (fst x))) afs with
+            | [] => False | _ => True end) as Hne by (subst afs; exact I).
+    destruct (map (fun x : string * aexpr * ty => (fst (fst x), snd (fst x))) afs) as [|q qs] eqn:Em; [destruct Hne|].
+    rewrite <- Em. clear Hne Em q qs.
+    rewrite mmapM_map. simpl snd.
+    eapply okM_bind.
+    - apply okM_mmapM2 with (R := fun z v => vgood (snd z) v) (zs := afs).
+      clear -Hafs. induction Hafs as [|z r Hz Hr IHr]; constructor; [apply Hz|exact IHr].
+    - intros vs Hvs. apply okM_ret. destruct (fields_ok_intro afs vs Hvs) as [F1 [F2 F3]].
+      destruct (ty_ok_parts _ KT) as [S [W _]]. split; [|exact F3].
+      unfold has_vtype. simpl val_type. rewrite (eq_refl _ W), andb_true_r. rewrite val_ok_obj.
+      rewrite W, S, F1. simpl. rewrite andb_true_r. apply Nat.eqb_eq. unfold len in *. rewrite map_length. exact F2.
+  Qed.
+
+  (* ---- identifier ---- *)
+  Lemma case_ident p n : stmt (EIdent p n).
+  Proof.
+    intros a T HC. simpl in HC. destruct (reserved (rstr n)); [discriminate HC|].
+    destruct (assoc (rstr n) G) as [t|] eqn:Ea; inversion HC; subst. clear HC.
+    destruct (Hrho _ _ Ea) as [v [Hv [H1 H2]]].
+    intros [|f]; [apply ev_zero|]. rewrite eval_ident, Hv. apply okM_ret. split; assumption.
+  Qed.
+
+  (* ---- call ---- *)
+  Lemma cmapM_args args aargs : cmapM chk args = COk aargs ->
+    forallb ty_ok (map snd aargs) = true /\ (Forall stmt args -> Forall (fun at_ => ev_ok (snd at_) (fst at_)) aargs).
+  Proof.
+    intros H. apply cmapM_Forall2 in H. split.
+    - apply forallb_forall. intros t Ht. apply in_map_iff in Ht. destruct Ht as [[a t'] [E Hin]]. simpl in E. subst t'.
+      assert (Forall (fun y => ty_ok (snd y) = true) aargs) as HF.
+      { eapply Forall2_Forall_r; [exact H|]. intros x [ay ty_] _ Hx. simpl. eapply chk_ok; eauto. }
+      rewrite Forall_forall in HF. apply (HF _ Hin).
+    - intros IH. eapply Forall2_Forall_r; [exact H|]. intros x [ay ty_] Hin Hx. simpl.
+      rewrite Forall_forall in IH. apply (IH x Hin). exact Hx.
+  Qed.
+
+  Lemma args_ok_inst s : forall aargs params,
+    Forall (fun at_ : aexpr * ty => ev_ok (snd at_) (fst at_)) aargs -> args_inst s params (map snd aargs) ->
+    Forall2 (fun ax p => ev_ok (subst_ty s p) ax) (map fst aargs) params /\ Forall (fun p => wf_ty (subst_ty s p) = true) params.
+  Proof.
+    unfold args_inst. induction aargs as [|[ax A] r IH]; intros params HF HI; simpl in HI; inversion HI; subst.
+    - split; constructor.
+    - inversion HF as [|? ? Hx Hr]; subst. simpl in Hx.
+      match goal with H : _ /\ _ |- _ => destruct H as [E W] end.
+      match goal with H : Forall2 _ (map snd r) _ |- _ => destruct (IH _ Hr H) as [I1 I2] end.
+      split; constructor; try assumption. simpl. eapply ev_ok_eqb; eauto.
+  Qed.
+
+  Lemma case_call p col callee args : Forall stmt args -> stmt (ECall p col callee args).
+  Proof.
+    intros IHa a T HC. destruct (is_ident callee) eqn:Eid.
+    - destruct callee; try discriminate Eid. rewrite check_call_ident in HC.
+      destruct (cmapM chk args) as [aargs| |] eqn:E1; simpl in HC; try discriminate HC.
+      destruct (cmapM_args _ _ E1) as [Hok Hev]. specialize (Hev IHa).
+      destruct (resolve fe fuel fresh (rstr name) (map snd aargs)) as [[[[key idx] ps] rt]| |] eqn:ER;
+        simpl in HC; try discriminate HC.
+      destruct (params_match ps (map snd aargs)) eqn:EM; [|discriminate HC]. inversion HC; subst. clear HC.
+      destruct (resolve_info _ _ _ _ _ _ _ _ _ Hfe Hfr Hok ER EM) as [Hk [sg [s [Hl [Hi ->]]]]].
+      intros [|f]; [apply ev_zero|]. rewrite eval_call, Hk, Hl.
+      pose proof (lib_sig_spec ops orc sg (Hlib _ (lookup_in _ _ _ _ Hl))) as Hspec.
+      destruct (args_ok_inst s aargs (s_params sg) Hev Hi) as [HA HW].
+      unfold do_call. unfold sig_spec in Hspec. destruct (s_lazy sg).
+      + apply Hspec. apply Forall2_map_left. eapply Forall2_weaken; [|exact HA]. intros ax q Hq. apply Hq.
+      + eapply okM_bind.
+        * apply okM_mmapM2 with (R := fun q v => vgood (subst_ty s q) v) (zs := s_params sg).
+          eapply Forall2_weaken; [|exact HA]. intros ax q Hq. apply Hq.
+        * intros vs Hvs. apply Hspec; assumption.
+    - rewrite check_call_other in HC by assumption.
+      destruct (cmapM chk args) as [aargs| |] eqn:E1; simpl in HC; try discriminate HC.
+      destruct (chk callee) as [[ac ft]| |] eqn:E2; simpl in HC; try discriminate HC.
+      pose proof (chk_ok _ _ _ E2) as K. destruct (ty_ok_parts _ K) as [_ [_ C]].
+      destruct ft; try discriminate HC. discriminate C.
+  Qed.
+
+  (* ---- subscript ---- *)
+  Lemma case_sub p col v i : stmt v -> stmt i -> stmt (ESub p col v i).
+  Proof.
+    intros IHv IHi a T HC. simpl in HC.
+    destruct (chk v) as [[av vt]| |] eqn:E1; simpl in HC; try discriminate HC.
+    pose proof (chk_ok _ _ _ E1) as Kv. specialize (IHv _ _ E1).
+    destruct vt; try discriminate HC.
+    - destruct (chk i) as [[ai it]| |] eqn:E2; simpl in HC; try discriminate HC.
+      unfold type_assert in HC. destruct (ty_eqb it TNum) eqn:Et; simpl in HC; try discriminate HC.
+      inversion HC; subst. clear HC. specialize (IHi _ _ E2).
+      intros [|f]; [apply ev_zero|]. rewrite eval_sub.
+      eapply okM_bind; [apply IHv|]. intros x [Hx Fx].
+      destruct (vt_list _ _ Hx) as [e1 [vs1 [-> [Ee [W1 [S1 O1]]]]]]. simpl in Fx.
+      eapply okM_bind; [apply (ev_ok_eqb _ _ _ Et IHi)|]. intros iv Hiv.
+      destruct (vt_num _ (proj1 Hiv)) as [n ->]. simpl as_num.
+      eapply okM_bind with (Q := fun m => m = n); [apply okM_ret; reflexivity|]. intros ? ->. cbv zeta.
+      destruct (Z.ltb (to_i64 ops n) 0 || Z.leb (Z.of_nat (len vs1)) (to_i64 ops n)); [apply okM_fail|].
+      destruct (nth_error vs1 (Z.to_nat (to_i64 ops n))) as [e|] eqn:En; [|apply okM_fail].
+      apply okM_ret. eapply list_elem_good; eauto. eapply nth_error_In; eauto.
+    - destruct (chk i) as [[ai it]| |] eqn:E2; simpl in HC; try discriminate HC.
+      unfold type_assert in HC. destruct (ty_eqb it vt1) eqn:Et; simpl in HC; try discriminate HC.
+      inversion HC; subst. clear HC. specialize (IHi _ _ E2).
+      intros [|f]; [apply ev_zero|]. rewrite eval_sub.
+      eapply okM_bind; [apply IHv|]. intros x [Hx Fx].
+      destruct (vt_map _ _ _ Hx) as [k1 [e1 [kvs [-> [K1 [Ee [W1 [S1 [N1 O1]]]]]]]]]. simpl in Fx.
+      eapply okM_bind; [apply (ev_ok_eqb _ _ _ Et IHi)|]. intros kv Hkv.
+      destruct (map_key_ok ops k1 e1 vt1 kv W1 S1 K1 (proj1 Hkv)) as [kk Ek]. rewrite Ek.
+      eapply okM_bind with (Q := fun m => m = kk); [apply okM_ret; reflexivity|]. intros ? ->.
+      destruct (kget kk kvs) as [e|] eqn:Eg; [|apply okM_fail].
+      apply okM_ret. eapply map_elem_good; eauto.
+  Qed.
+
+  (* ---- member ---- *)
+  Lemma case_member p col o fname fpos : stmt o -> stmt (EMember p col o fname fpos).
+  Proof.
+    intros IHo a T HC. simpl in HC.
+    destruct (chk o) as [[ao ot]| |] eqn:E1; simpl in HC; try discriminate HC.
+    pose proof (chk_ok _ _ _ E1) as Ko. specialize (IHo _ _ E1).
+    destruct ot; try discriminate HC.
+    destruct (assoc (rstr fname) fs) as [ft|] eqn:Ea; [|discriminate HC].
+    destruct (index_of (rstr fname) fs) as [idx|]; inversion HC; subst. clear HC.
+    rename T into ft.
+    intros [|f]; [apply ev_zero|]. rewrite eval_member.
+    eapply okM_bind; [apply IHo|]. intros x [Hx Fx].
+    destruct (vt_obj _ _ Hx) as [fs' [vs [-> [_ [W' _]]]]].
+    destruct (ty_ok_parts _ Ko) as [_ [W _]].
+    destruct (obj_field_good fs' vs fs (rstr fname) ft Hx Fx W Ea) as [e [Eg Ge]].
+    rewrite obj_load_get by (apply wf_obj in W'; tauto). rewrite Eg. apply okM_ret. exact Ge.
+  Qed.
+
+  Lemma eval_ok : forall e, stmt e.
+  Proof.
+    induction e using expr_ind'.
+    - intros a T HC. simpl in HC. destruct (str_value t); inversion HC; subst.
+      intros [|f]; [apply ev_zero|]. apply okM_ret. apply vgood_str.
+    - intros a T HC. simpl in HC. destruct (num_parse t); inversion HC; subst.
+      intros [|f]; [apply ev_zero|]. apply okM_ret. apply vgood_num.
+    - intros a T HC. simpl in HC. inversion HC; subst.
+      intros [|f]; [apply ev_zero|]. apply okM_ret. apply vgood_time.
+    - intros a T HC. simpl in HC. inversion HC; subst.
+      intros [|f]; [apply ev_zero|]. apply okM_ret. apply vgood_bool.
+    - apply case_list; assumption.
+    - apply case_map; assumption.
+    - apply case_obj; assumption.
+    - apply case_ident.
+    - apply case_call; assumption.
+    - apply case_sub; assumption.
+    - apply case_member; assumption.
+    - intros a T HC; discriminate HC.
+    - intros a T HC; discriminate HC.
+    - intros a T HC; discriminate HC.
+    - intros a T HC; discriminate HC.
+  Qed.
+End Main.
+
+(* the invariant behind C01 and C02: an accepted expression evaluated in a conforming environment yields a value of
+   the inferred (deep) type, a documented failure, or the fuel fault *)
+Theorem eval_invariant ops orc : forall fe G rho fuel fresh e a T f,
+  (fe = builtin_fenv \/ fe = fenv_std) ->
+  tenv_ok G = true -> env_ok G rho -> fresh_ok fe fresh ->
+  check fe G fuel fresh e = COk (a, T) ->
+  okM (vgood T) (eval ops orc fe rho f a).
+Proof.
+  intros fe G rho fuel fresh e a T f Hfe HG Hrho Hfr HC.
+  assert (fenv_ok fe = true) as Hok by (destruct Hfe; subst fe; apply tables_ok).
+  exact (eval_ok ops orc fe G rho fuel fresh Hok (fun sg => table_sigs fe sg Hfe) HG Hrho Hfr e a T HC f).
+Qed.
+
+Lemma preservation ops orc : forall fe G rho fuel fresh e a T f t v,
+  (fe = builtin_fenv \/ fe = fenv_std) ->
+  tenv_ok G = true -> env_ok G rho -> fresh_ok fe fresh ->
+  check fe G fuel fresh e = COk (a, T) ->
+  eval ops orc fe rho f a = (t, OVal v) ->
+  has_vtype v T = true /\ fun_free v = true.
+Proof.
+  intros fe G rho fuel fresh e a T f t v Hfe HG Hrho Hfr HC HE.
+  pose proof (eval_invariant ops orc fe G rho fuel fresh e a T f Hfe HG Hrho Hfr HC) as H.
+  unfold okM in H. rewrite HE in H. exact H.
+Qed.
+
+Lemma progress_inv ops orc : forall fe G rho fuel fresh e a T f t k,
+  (fe = builtin_fenv \/ fe = fenv_std) ->
+  tenv_ok G = true -> env_ok G rho -> fresh_ok fe fresh ->
+  check fe G fuel fresh e = COk (a, T) ->
+  eval ops orc fe rho f a = (t, OFault k) -> k = XFuel.
+Proof.
+  intros fe G rho fuel fresh e a T f t k Hfe HG Hrho Hfr HC HE.
+  pose proof (eval_invariant ops orc fe G rho fuel fresh e a T f Hfe HG Hrho Hfr HC) as H.
+  unfold okM in H. rewrite HE in H. exact H.
+Qed.
+
+Print Assumptions preservation.
+Print Assumptions progress_inv.
+Print Assumptions tables_ok.
